@@ -10,6 +10,7 @@ from ..harness import Sub, Violation
 from ..spy import optimiser_spy
 
 QUICK_SCALE = 4  # quick budgets below are multiplied by this (kept at about half a minute on 8 processes)
+THOROUGH_SCALE = 10  # thorough budgets below are multiplied by this (about ten minutes on 16 processes)
 
 RULE = ("the stated families only: features scaled by 1..1000 with offsets up to 5000, a constant column, a duplicated "
         "column, duplicated samples, n == n_clusters, n_clusters == 1, batch_size == 1; default learning rates; all "
